@@ -273,6 +273,13 @@ def run(c, chk):
     # ---- R2.6 ----------------------------------------------------------------
     loop_progress(c, chk, reach)
     reader_loops(c, chk)
+    table_growth(c, chk, 'R2.11')
+    if not isinstance(chk, report.SubCheck):
+        from . import c13 as _c13
+        chk.rule('R2.12', 'every write into the include stack is preceded by the depth test (rule R13.2 of C13)')
+        sub = report.SubCheck(chk, 'R2.12', 'C13', only=('R13.2',))
+        _c13.run(c, sub)
+        sub.done('include stack bound')
     slot_width(c, chk)
 
     # ---- R2.7: the parse loop never releases the same object twice / keeps a released one ----
@@ -810,6 +817,56 @@ def slot_width(c, chk):
     elif n:
         chk.ok('R2.10', 'cfg_setopt: %d successful paths of a boolean option' % n, 'the slot is written through the member "boolean" only', sample=True)
     chk.floor('R2.10 successful paths of a boolean option', n, 4)
+
+
+def table_growth(c, chk, rid):
+    """the option table of a free-form (key=value) context grows with the text: every write into an entry of the table on a
+    path of cfg_addopt() lies inside what was (re)allocated ON THAT PATH - the table it starts from is the exactly-sized
+    private copy of the schema, there is no spare room in it"""
+    from .. import bufsize
+    chk.rule(rid, 'cfg_addopt() writes only into entries of the option table that the reallocation on the same path has made room for')
+    fn = c.need('cfg_addopt')
+    ex = sym.Explorer(c.modules, max_visits=2, mod_sets=c.mod_sets, max_paths=20000)
+    n = 0
+    bad = None
+    for p in ex.explore(fn):
+        room = None
+        for e in p.events:
+            if e.kind == 'call' and e.name in ('reallocarray', 'calloc') and len(e.args) >= 2:
+                room = bufsize.lin(e.args[-2])
+            elif e.kind == 'call' and e.name == 'realloc' and len(e.args) == 2:
+                v = e.args[1]
+                room = None
+                if v[0] == 'bin' and v[1] == 'mul':
+                    k, o = (v[2], v[3]) if sym.is_const(v[2]) else (v[3], v[2])
+                    if sym.is_const(k) and k[1] >= 64:
+                        room = bufsize.lin(o)
+            idxs = []
+            if e.kind == 'store' and sym.object_of(e.addr)[0] != 'alloca':
+                idxs = [e.addr]
+            elif e.kind == 'call' and e.name in ('llvm.memset.p0i8.i64', 'memset', 'llvm.memcpy.p0i8.p0i8.i64', 'memcpy') and e.args:
+                idxs = [e.args[0]]
+            for a in idxs:
+                x = a
+                ent = None
+                while x[0] in ('fld', 'idx'):
+                    if x[0] == 'idx' and sym.mentions(x[1], lambda v: (v[0] == 'fld' and len(v) > 3 and v[3] == 'opts') or (v[0] == 'call' and v[1] in ('reallocarray', 'realloc'))):
+                        ent = x
+                    x = x[1]
+                if ent is None:
+                    continue
+                n += 1
+                need = bufsize.lin(ent[2])
+                if room is None or need is None or not need.add(bufsize.Lin(1)).le(room):
+                    bad = bad or (p, e, ent, room)
+    if bad is not None:
+        p, e, ent, room = bad
+        chk.fail(rid, 'table-write-beyond-room', c.where(e.ins), 'cfg_addopt() writes entry %s of the option table on a path where %s (%s): the table a context starts with is the '
+                 'exactly-sized copy of its schema, so the write lands behind the allocation'
+                 % (sym.render(ent[2]), 'the table was not enlarged' if room is None else 'the reallocation made room for %r entries only' % room, fp_cond_text(p)))
+    elif n:
+        chk.ok(rid, 'cfg_addopt: %d writes into table entries' % n, 'each inside the room made by the reallocation on its path', sample=True)
+    chk.floor('%s writes into table entries' % rid, n, 2)
 
 
 def fp_cond_text(p):
